@@ -199,6 +199,9 @@ class _SvcMixin:
         _event("failing", label=self.label, how=self.fail_how)
         if self.fail_how == "return":
             return "orphaned value from %s" % self.label
+        if self.fail_how.startswith("return_"):
+            # a value that is not None, though its truth value is False: still nobody is there to receive it
+            return {"false": False, "zero": 0, "empty": [], "emptystr": ""}[self.fail_how[7:]]
         if self.fail_how == "systemexit":
             sys.exit("service %s gives up" % self.label)
         if self.fail_how == "base":
